@@ -7,10 +7,11 @@
        phrase's terms in that document are pairwise distinct modulo 64 (e.g. every document of at most 64 tokens);
        without that proviso the clause is FALSE for the model and the code (C15_exact_match_refuted, known finding
        D27: a stale position bit shadows the term 64 positions further on).
-   NOT proved (decided on generated inputs by the clause oracle Span/Span_Spec.v on model and implementation):
-     - distinct terms, length + slop <= 18: an in-order window of length + slop tokens matches (false on the same
-       inputs as D27). *)
-From SA Require Import Base.Prelude Index.Index Index.Index_Spec Span.Span Span.Span_Spec Span.Span_Proofs Span.Span_Exact2 Query.Phrase_Spec.
+     - PARTIAL, same proviso: length + slop <= 18 and the terms in order within a window of length + slop tokens
+       => the document matches (C15_window_match_partial, against the executable oracle window_match of Span/Span_Spec.v);
+       false without the proviso on the same inputs as D27.
+   All clauses are also decided per input by the clause oracle on model and implementation (the check). *)
+From SA Require Import Base.Prelude Index.Index Index.Index_Spec Span.Span Span.Span_Spec Span.Span_Proofs Span.Span_Exact2 Span.Span_Window Query.Phrase_Spec.
 Open Scope N_scope.
 
 Theorem C15_one_entry_per_row_partial : forall ix ts slop v,
@@ -40,6 +41,18 @@ Theorem C15_exact_match_refuted :
     wf_docs docs /\ index false bs docs = AOk ix /\ 1 <= slop /\ (2 <= length ts)%nat /\
     slop_freqs ix ts slop = AOk v /\ (d < length docs)%nat /\ occ ts (nth d docs []) > 0 /\ nth d v 0 = 0.
 Proof. exact slop_loses_exact_match_refuted_repaired. Qed.
+
+(* clause 3, partial: in-order windows match under the same proviso (the proof tracks the copies of the span seeded at the
+   window's first term: a copy keeps the term bit and drops the position, so first-fit on an earlier decoy does no harm) *)
+Theorem C15_window_match_partial : forall docs bs ix ts slop v d,
+  wf_docs docs -> index false bs docs = AOk ix -> 1 <= slop -> (2 <= length ts)%nat -> NoDup ts ->
+  N.of_nat (length ts) + slop <= 18 ->
+  slop_freqs ix ts slop = AOk v -> (d < length docs)%nat ->
+  window_match ts (nth d docs []) (N.of_nat (length ts) + slop) = true ->
+  no_alias64 ts (nth d docs []) ->
+  nth d v 0 <> 0.
+Proof. exact slop_window_match_partial. Qed.
+Print Assumptions C15_window_match_partial.
 
 Example C15_model_example :
   match index false 100 [[1;9;2;9;9;3];[1;2;3];[3;2;1];[1;2];[]] with
